@@ -181,8 +181,8 @@ Definition ex_srcty (s : nat) (T : ty) : Prop := s = 0 /\ T = tA.
 Ltac tyvar := apply T_Var; reflexivity.
 Example ex_validates : validates exH exL ex_opty ex_srcty.
 Proof.
-  intros o b Lo T O. unfold exL, mk_lang in Lo. cbn in Lo.
-  repeat (destruct o as [|o]; [try discriminate|]); try discriminate;
+  intros o b Lo T O. unfold exL, mk_lang in Lo.
+  destruct o as [|[|[|[|[|[|[|[|[|o]]]]]]]]]; cbn in Lo; try discriminate;
     injection Lo as <-; cbn in O.
   - subst T. apply T_Lam. eapply T_App; [eapply T_App; [apply T_Op; reflexivity | tyvar]|].
     apply T_Src. split; reflexivity.
